@@ -93,7 +93,13 @@ def clause_a(rep, F, caps):
             rep.extra["fetch_next_token_exits"] = [(x[2], x[3], str(x[4])) for x in E.analyse(SCANNER + "::fetch_next_token", 0, e1.INF, (None,))]
             clause_e_summary(rep, F, E)
             clause_e_loops(rep, F, E)
-    rep.floor("Input primitive call sites visited by E1", floor_sites or 0, 130)
+    rep.floor("Input primitive call sites visited by E1", floor_sites or 0, 100)
+    # E1 follows calls, not closures: an Input operation inside a closure would escape the look-ahead analysis (fail closed)
+    for k, f in sorted(F.fns.items()):
+        if f.kind == "Closure" and f.crate == "saphyr_parser" and "::test" not in k:
+            ops = [fr["name"] for bb, t, ck, fr in f.calls() if fr and fr.get("trait") == INPUT]
+            rep.check(not ops, "input-contract", "%s:closure" % short(k), "an Input operation (%s) is performed inside a closure, which the look-ahead "
+                      "analysis does not follow: analysis incomplete" % ", ".join(ops), site=f.span)
     # capacity of the in-repo implementations
     maxreq = 0
     for k, f in F.fns.items():
@@ -254,7 +260,7 @@ def clause_e_loops(rep, F, E):
                 rep.bad("loop-progress", inst, "a cycle of this loop passes no progress step (no consuming call, iterator step, token/event "
                         "consumption, stack pop or bounded counter): it can spin forever", site="%s (%s)" % (f.key, f.span), detail={"cycle_blocks": cyc})
     rep.extra["loops"] = {"total": nloops, "weak": weak}
-    rep.floor("natural loops classified", nloops, 45)
+    rep.floor("natural loops classified", nloops, 35)
 
 
 def loop_exceptions():
@@ -351,7 +357,7 @@ def clause_b(rep, F):
             n += 1
             rep.check(st_in.get(bb, False), "token-slot", "%s:fetch_token" % short(k),
                       "fetch_token() (an expect) can be reached without a preceding successful peek_token() on some path", site=site(f, f.blocks[bb]["term"]["sp"]))
-    rep.floor("fetch_token call sites", n, 5)
+    rep.floor("fetch_token call sites", n, 3)
 
 
 def clause_d(rep, F):
@@ -367,7 +373,7 @@ def clause_d(rep, F):
                 okk = (e[0] == "adt" and e[1].endswith("input::SkipTabs") and e[2] in ("Yes", "No")) or (e[0] == "param" and f.name == "skip_ws_to_eol")
                 rep.check(okk, "skip-tabs-constant", "%s->skip_ws_to_eol" % short(k), "skip_ws_to_eol is called with something other than the constants "
                           "SkipTabs::Yes/No (StrInput asserts this)", site=site(f, t["sp"]), detail=cfg.expr_str(e))
-    rep.floor("skip_ws_to_eol call sites", n, 10)
+    rep.floor("skip_ws_to_eol call sites", n, 6)
     # as_hex under is_hex
     n = 0
     for k, f in sorted(F.fns.items()):
@@ -393,7 +399,7 @@ def clause_d(rep, F):
                             okk = True
                 rep.check(okk, "as-hex-guarded", "%s->as_hex" % short(k), "as_hex (unreachable! on non-hex input) is not dominated by is_hex of the same value",
                           site=site(f, t["sp"]), detail=cfg.expr_str(arg))
-    rep.floor("as_hex call sites", n, 3)
+    rep.extra["as_hex_call_sites"] = n
     # flow_level decrement under flow_level > 0
     dfl = F.fn(SCANNER + "::decrease_flow_level")
     subs = [w for w in cfg.field_writes(dfl, SCANNER, "flow_level") if w["kind"] == "assign"]
@@ -432,8 +438,8 @@ def clause_f(rep, F):
     fns = parse_path_functions(F)
     total, disc, residual = panics.review(rep, "panic-review", F, fns, table, short)
     rep.extra["panic_sites"] = {"functions": len(fns), "total": total, "mechanically_discharged": disc, "reviewed": sum(len(v) for v in residual.values())}
-    rep.floor("functions reachable from the parsing entry points", len(fns), 250)
-    rep.floor("panic-capable sites inventoried", total, 140)
+    rep.floor("functions reachable from the parsing entry points", len(fns), 200)
+    rep.floor("panic-capable sites inventoried", total, 100)
     # every table entry still names an existing function
     for (fk, kind), ent in sorted(table.items()):
         if fk not in F.fns:
